@@ -14,13 +14,14 @@ def fnv(b):
     return h
 
 class Edge:
+    dd_at_rule = False; bl = False; blf = False      # defaults for ground truth pickled by earlier versions
     def __init__(s, idx):
         s.idx = idx; s.outs = []; s.n_imp_out = 0
         s.exp = []; s.imp = []; s.oo = []; s.vals = []
         s.phony = False; s.restat = False; s.generator = False
         s.deps = ''; s.depfile = ''; s.hidden = []
         s.pool = ''; s.ver = 0; s.rsp = None; s.rspver = 0
-        s.dyndep = None; s.console = False; s.dd_at_rule = False; s.bl = False
+        s.dyndep = None; s.console = False; s.dd_at_rule = False; s.bl = False; s.blf = False
     @property
     def out0(s): return s.outs[0]
     def cmd(s):
@@ -81,12 +82,13 @@ class Graph:
             if e.phony: continue
             L.append('rule r%d' % e.idx)
             L.append('  command = ' + ('decoy%d' % e.idx if getattr(e, 'bl', False) else e.cmd()))
-            if e.restat: L.append('  restat = 1')
-            if e.generator: L.append('  generator = 1')
-            if e.deps: L.append('  deps = ' + e.deps)
-            if e.depfile: L.append('  depfile = ' + e.depfile)
+            if not e.blf:
+                if e.restat: L.append('  restat = 1')
+                if e.generator: L.append('  generator = 1')
+                if e.deps: L.append('  deps = ' + e.deps)
+                if e.depfile: L.append('  depfile = ' + e.depfile)
             if e.rsp: L += ['  rspfile = ' + e.rsp, '  rspfile_content = ' + e.rspcontent()]
-            if e.dyndep and e.dd_at_rule and not e.pool and not getattr(e, 'bl', False): L.append('  dyndep = ' + e.dyndep)
+            if e.dyndep and e.dd_at_rule and not e.pool and not getattr(e, 'bl', False) and not (e.blf and (e.restat or e.generator or e.deps or e.depfile)): L.append('  dyndep = ' + e.dyndep)
         for e in s.edges:
             outs = ' '.join(e.outs[:len(e.outs) - e.n_imp_out])
             if e.n_imp_out: outs += ' | ' + ' '.join(e.outs[len(e.outs) - e.n_imp_out:])
@@ -97,8 +99,13 @@ class Graph:
             if e.vals: l += ' |@ ' + ' '.join(e.vals)
             L.append(l)
             if getattr(e, 'bl', False) and not e.phony: L.append('  command = ' + e.cmd())   # build-level binding shadows the rule's
+            if e.blf and not e.phony:          # the flags bound on the build statement (gn style) instead of the rule
+                if e.restat: L.append('  restat = 1')
+                if e.generator: L.append('  generator = 1')
+                if e.deps: L.append('  deps = ' + e.deps)
+                if e.depfile: L.append('  depfile = ' + e.depfile)
             if e.pool: L.append('  pool = ' + e.pool)
-            if e.dyndep and not (e.dd_at_rule and not e.pool and not getattr(e, 'bl', False)): L.append('  dyndep = ' + e.dyndep)
+            if e.dyndep and not (e.dd_at_rule and not e.pool and not getattr(e, 'bl', False) and not (e.blf and (e.restat or e.generator or e.deps or e.depfile))): L.append('  dyndep = ' + e.dyndep)
         if s.defaults: L.append('default ' + ' '.join(s.defaults))
         return '\n'.join(L) + '\n'
 
@@ -184,6 +191,7 @@ def gen_graph(rnd, nedges, feat=None, wf_reads=True):
             e.restat = rnd.random() < f['restat']
             e.generator = rnd.random() < f['generator']
             e.bl = rnd.random() < 0.15     # the real command is bound at build level, the rule carries a decoy
+            e.blf = rnd.random() < 0.2     # restat/generator/deps/depfile bound at build level
             if rnd.random() < f['deps'] and len(e.outs) - e.n_imp_out >= 1:
                 kind = rnd.choice(['gcc', 'msvc', 'depfile', 'gcc'])
                 if len(e.outs) > 1 and kind != 'depfile': kind = 'depfile' if rnd.random() < 0.5 else ''
